@@ -634,6 +634,8 @@ def run(ctx):
     # ---- watercare and reminders first (their findings are few and distinct)
     watercare_sweep(ctx, cs, flavors)
     R = Run(ctx)
+    R.lines.append("ncombos")                 # the generated enumeration has as many combinations as the harness sees
+    R.expect.append(("plain", str(len(cs)), None))
     good = [x for x in cs if x[0]["name"] == "InYT"] or cs
     rl = reminder_lists(ctx, 40 if ctx.quick else 400)
     for i, rs in enumerate(rl):
